@@ -10,7 +10,7 @@ CONSTANTS
   BUD <- BudAtk
   ENRS = {TRUE}
   WAYSEQS = {1}
-  HSSIGS = {"own", "zero64", "junk0"}
+  HSSIGS = {"own", "zero64", "junk0", "relay"}
   HSRECS = {"none", "own2", "claimed1"}
   MSGSEL = {"req", "pong"}
   DEPTH = 0
